@@ -203,6 +203,9 @@ fn check_formula_range(r: &Range<String>, exp: &[((u32, u32), String)]) -> Resul
     Ok(())
 }
 
+/// a name record without a formula (what a VBA macro or add-in function leaves in the name table)
+fn macro_lbl(on: bool) -> Vec<(String, Vec<u8>)> { if on { vec![("Macro1".to_string(), vec![])] } else { vec![] } }
+
 fn file_level(rep: &Report, fmt: &'static str, asts: &[Expr], thorough: bool) {
     let xs = xti_sheets();
     let nm = names();
@@ -222,14 +225,20 @@ fn file_level(rep: &Report, fmt: &'static str, asts: &[Expr], thorough: bool) {
         let plain = (anchor.0 + 3, anchor.1 + 3);
         let exp: Vec<((u32, u32), String)> = cells.iter().map(|(p, e)| (*p, render(e, &ctx))).collect();
         crate::engine::crumb::set_case(&format!("C14 {fmt} file with formulas {:?}", exp));
+        // workbook-level variations, cycled over the files: a formula-less name record (a macro / add-in placeholder) before the
+        // names the formulas use (PtgName counts every name record), and (xls) sheet substreams stored in reverse of BoundSheet8 order
+        let macro_first = (gi / 2) % 2 == 1;
+        let reversed = (gi / 4) % 2 == 1;
+        let nb = macro_first as u32;
         let bytes = match fmt {
             "xls" => {
                 let mut bc: Vec<biff8::BCell> = vec![biff8::BCell::Number { r: plain.0 as u16, c: plain.1 as u16, xf: 0, v: 1.0 }];
-                for (p, e) in &cells { let mut rgce = vec![]; to_ptg(e, false, true, &mut rgce); bc.push(biff8::BCell::Formula { r: p.0 as u16, c: p.1 as u16, xf: 0, res: biff8::FRes::Num(1.0), rgce }); }
+                for (p, e) in &cells { let mut rgce = vec![]; crate::model::formula::with_name_base(nb, || to_ptg(e, false, true, &mut rgce)); bc.push(biff8::BCell::Formula { r: p.0 as u16, c: p.1 as u16, xf: 0, res: biff8::FRes::Num(1.0), rgce }); }
                 bc.sort_by_key(|c| match c { biff8::BCell::Formula { r, c, .. } | biff8::BCell::Number { r, c, .. } => (*r, *c), _ => (0, 0) });
                 let book = biff8::BBook { sheets: vec![biff8::BSheet::new(SHEETS[0], bc), biff8::BSheet::new(SHEETS[1], vec![]), biff8::BSheet::new(SHEETS[2], vec![])],
                     extern_sheets: Some(XTI_TAB.iter().map(|i| (*i as i16, *i as i16)).collect()),
-                    names: NAMES.iter().map(|n| (n.to_string(), { let mut r = vec![0x3A, 0, 0]; r.extend(0u16.to_le_bytes()); r.extend(0u16.to_le_bytes()); r })).collect(), ..Default::default() };
+                    names: macro_lbl(macro_first).into_iter().chain(NAMES.iter().map(|n| (n.to_string(), { let mut r = vec![0x3A, 0, 0]; r.extend(0u16.to_le_bytes()); r.extend(0u16.to_le_bytes()); r }))).collect(),
+                    substream_order: if reversed { vec![2, 1, 0] } else { vec![] }, ..Default::default() };
                 let mut stream = biff8::workbook_stream(&book);
                 if stream.len() < 4096 { stream.resize(4096, 0); }
                 cfb::simple(&[("Workbook", stream)], &cfb::Layout::default())
@@ -242,13 +251,13 @@ fn file_level(rep: &Report, fmt: &'static str, asts: &[Expr], thorough: bool) {
                 cs.sort_by_key(|c| c.0);
                 for (p, e) in &cs {
                     if *p == plain { items.push(xlsb::BItem::Cell { row: plain.0, col: plain.1, style: 0, val: xlsb::BVal::Real(1.0) }); continue; }
-                    let mut rgce = vec![]; to_ptg(e, true, true, &mut rgce);
+                    let mut rgce = vec![]; crate::model::formula::with_name_base(nb, || to_ptg(e, true, true, &mut rgce));
                     let val = match p.0 % 4 { 0 => xlsb::BVal::FmlaNum(1.0, rgce), 1 => xlsb::BVal::FmlaStr("s".into(), rgce), 2 => xlsb::BVal::FmlaBool(true, rgce), _ => xlsb::BVal::FmlaErr(7, rgce) };
                     items.push(xlsb::BItem::Cell { row: p.0, col: p.1, style: 0, val });
                 }
                 let book = xlsb::BBook { sheets: vec![xlsb::BSheet::new(SHEETS[0], items), xlsb::BSheet::new(SHEETS[1], vec![]), xlsb::BSheet::new(SHEETS[2], vec![])],
                     extern_sheets: Some(XTI_TAB.iter().map(|i| (*i as i32, *i as i32)).collect()),
-                    names: NAMES.iter().map(|n| (n.to_string(), { let mut r = vec![0x3A, 0, 0]; r.extend(0u32.to_le_bytes()); r.extend(0u16.to_le_bytes()); r })).collect(), ..Default::default() };
+                    names: macro_lbl(macro_first).into_iter().chain(NAMES.iter().map(|n| (n.to_string(), { let mut r = vec![0x3A, 0, 0]; r.extend(0u32.to_le_bytes()); r.extend(0u16.to_le_bytes()); r }))).collect(), ..Default::default() };
                 xlsb::write(&book, Method::Deflated)
             }
         };
@@ -257,7 +266,7 @@ fn file_level(rep: &Report, fmt: &'static str, asts: &[Expr], thorough: bool) {
             if fmt == "xls" { let mut wb: Xls<_> = Xls::new(Cursor::new(bytes.clone())).map_err(|e| format!("open: {e:?}"))?; wb.worksheet_formula(SHEETS[0]).map_err(|e| format!("worksheet_formula: {e:?}")) }
             else { let mut wb: Xlsb<_> = Xlsb::new(Cursor::new(bytes.clone())).map_err(|e| format!("open: {e:?}"))?; wb.worksheet_formula(SHEETS[0]).map_err(|e| format!("worksheet_formula: {e:?}")) }
         });
-        let replay = || Replay { json: json!({"format": fmt, "formulas": exp}), files: vec![(fmt.to_string(), bytes.clone())] };
+        let replay = || Replay { json: json!({"format": fmt, "formulas": exp, "formula_less_name_first": macro_first, "substreams_reversed": reversed && fmt == "xls"}), files: vec![(fmt.to_string(), bytes.clone())] };
         let outcome = match &res {
             Err(p) => { let site = normalise_site(p.rsplit(" @ ").next().unwrap_or("")); rep.fail(&format!("{fmt}/file/panic/{site}"), &format!("panicked: {p}"), replay); hash_of(p) }
             Ok(Err(e)) => { let cl: String = e.chars().take_while(|c| *c != '(' && *c != '{').collect(); rep.fail(&format!("{fmt}/file/error/{}", cl.trim()), e, replay); hash_of(e) }
@@ -336,7 +345,7 @@ fn text_formats(rep: &Report) {
 
 pub fn check(rep: &Report) {
     let t = crate::thorough(&rep.tier);
-    rep.rule("(a) every AST of depth <= 2 (thorough: + a depth-3 layer) over operands {cell refs: 4 absolute/relative combinations x columns A, Z, AA, AZ, ZZ, AAA, IV|XFD x first/last row; areas; 3-D refs/areas through a non-identity XTI table; 2 defined names; int, float, 8/16-bit strings, bool, 7 error literals} and operators {unary + - %, 15 binary, parentheses, fixed-arity PI/ABS/ROUND/MID, variable-arity SUM/IF/COUNT, PtgAttrSum}, serialised to BIFF8 and BIFF12 token streams in both operand classes and rendered by the real parsers (hook); (b) every 41st (thorough 7th) of them in FORMULA / BrtFmlaNum/String/Bool/Error records at three cells of a window anchored at A1 or at the last cell of the sheet, plus stored-text formulas with XML-special characters in xlsx and ods at every subset of 4 positions; non-formula cells must be \"\"; non-trivial = depth >= 1");
+    rep.rule("(a) every AST of depth <= 2 (thorough: + a depth-3 layer) over operands {cell refs: 4 absolute/relative combinations x columns A, Z, AA, AZ, ZZ, AAA, IV|XFD x first/last row; areas; 3-D refs/areas through a non-identity XTI table; 2 defined names; int, float, 8/16-bit strings, bool, 7 error literals} and operators {unary + - %, 15 binary, parentheses, fixed-arity PI/ABS/ROUND/MID, variable-arity SUM/IF/COUNT, PtgAttrSum}, serialised to BIFF8 and BIFF12 token streams in both operand classes and rendered by the real parsers (hook); (b) every 41st (thorough 7th) of them in FORMULA / BrtFmlaNum/String/Bool/Error records at three cells of a window anchored at A1 or at the last cell of the sheet, cycling over the files a formula-less name record before the used names and (xls) sheet substreams in reverse of BoundSheet8 order, plus stored-text formulas with XML-special characters in xlsx and ods at every subset of 4 positions; non-formula cells must be \"\"; non-trivial = depth >= 1");
     rep.assume("strings contain no double quote; sheet names need no quoting; numbers are exactly printable (1.5, 0.25)");
     let xls = sweep(rep, false, t);
     let xlsb_asts = sweep(rep, true, t);
